@@ -37,6 +37,7 @@ type Config struct {
 	ReplayDir string
 	Replay    string // replay file to re-run, if any
 	Workers   int
+	Part      string // multi-part checks: which part this process runs ("" = all)
 }
 
 func loadConfig(prop string) Config {
@@ -62,6 +63,7 @@ func loadConfig(prop string) Config {
 	}
 	cfg.ReplayDir = filepath.Join(cfg.VerifDir, "replays")
 	cfg.Replay = os.Getenv("VERIF_REPLAY")
+	cfg.Part = os.Getenv("VERIF_PART")
 	cfg.Workers = runtime.GOMAXPROCS(0)
 	if v := os.Getenv("VERIF_WORKERS"); v != "" {
 		if n, err := strconv.Atoi(v); err == nil && n > 0 {
